@@ -230,6 +230,22 @@ stringify(const string &source) {
 }
 
 /**
+ * Returns true if an apostrophe at position p of the string is a digit
+ * separator: it stands inside a number, that is, the run of letters, digits
+ * and apostrophes before it begins with a digit (1'000, 0xFF'FF) rather than
+ * with a letter (L'x', u8'x').
+ */
+bool
+cpp_is_digit_separator(const string &str, size_t p) {
+  size_t q = p;
+  while (q > 0 && (isalnum(str[q - 1]) || str[q - 1] == '_' ||
+                   str[q - 1] == '\'' || str[q - 1] == '.')) {
+    --q;
+  }
+  return q < p && isdigit(str[q]);
+}
+
+/**
  *
  */
 void CPPManifest::
@@ -275,7 +291,8 @@ extract_args(vector_string &args, const string &expr, size_t &p) const {
         args.push_back(expr.substr(q, r - q));
         q = p+1;
       }
-      else if (expr[p] == '"' || expr[p] == '\'') {
+      else if (expr[p] == '"' ||
+               (expr[p] == '\'' && !cpp_is_digit_separator(expr, p))) {
         // Quoted string or character.
         int quote_mark = expr[p];
         p++;
@@ -491,9 +508,9 @@ save_expansion(Expansion &expansion, const string &exp, const vector_string &par
   bool stringify = false;
   bool paste = false;
   while (p < exp.size()) {
-    if (exp[p] == '"' || (exp[p] == '\'' && (p == 0 || !isalnum(exp[p - 1])))) {
+    if (exp[p] == '"' || (exp[p] == '\'' && !cpp_is_digit_separator(exp, p))) {
       // A string or character literal is kept as it stands: parameter names,
-      // '#' and blanks inside it mean nothing.  (An apostrophe after a digit
+      // '#' and blanks inside it mean nothing.  (An apostrophe inside a number
       // is a digit separator.)
       char quote = exp[p];
       ++p;
